@@ -592,11 +592,14 @@ package moss
 //@   modifies *
 
 //@ func (s *Store) snapshotRevert(revertTo Snapshot) error
-//@   props C18
-//@   attr obligations call-requires
-//@   attr only-labels notReadOnly readOnlyFlag modeLinked
+//@   props C18 C12
+//@   attr obligations call-requires ensures
+//@   attr only-labels notReadOnly readOnlyFlag modeLinked same history current
 //@   requires s != nil && s.options != nil && readOnlyMode() == s.options.CollectionOptions.ReadOnly
-//@   modifies *
+//@   modifies s.footer, s.totPersists, heap(Footer.fileName), heap(Footer.filePos), heap(Footer.PrevFooterOffset)
+//@   ensures @current result == nil ==> s.footer != nil && fresh(s.footer)
+//@   ensures @same result == nil ==> typeIs(revertTo, "*Footer") && sameLocs(s.footer, ptrOf(revertTo, "*Footer"))
+//@   ensures @history result == nil && old(s.footer) != nil ==> s.footer.PrevFooterOffset == old(s.footer.filePos)
 
 // The background persister (which hands snapshots to LowerLevelUpdate) and the
 // merger only run on collections that are not ReadOnly.
@@ -696,7 +699,59 @@ package moss
 //@   props C07 C11
 //@   attr obligations ensures
 //@   requires newSS != nil
-//@   modifies *
+//@   modifies s.totCompactionBeforeBytes
 //@   ensures @incar err == nil ==> compactFooter != nil && compactFooter.incarNum == newSS.incarNum
 //@   ensures @oneSegment err == nil ==> len(compactFooter.SegmentLocs) == 1
 //@   loop 1: invariant compactFooter != nil && fresh(compactFooter) && compactFooter.incarNum == newSS.incarNum && len(compactFooter.SegmentLocs) == 1
+
+// ---- reverting to an earlier footer (C12, C11) ---------------------------------------------------------
+
+// rv denotes the same persisted segments as f (same locations, in order).
+//@ pure func sameLocs(rv *Footer, f *Footer) bool = rv != nil && len(rv.SegmentLocs) == len(f.SegmentLocs) &&
+//@     (forall i int :: {:pattern rv.SegmentLocs[i].KvsOffset} 0 <= i && i < len(f.SegmentLocs) ==>
+//@         rv.SegmentLocs[i].Kind == f.SegmentLocs[i].Kind && rv.SegmentLocs[i].KvsOffset == f.SegmentLocs[i].KvsOffset &&
+//@         rv.SegmentLocs[i].KvsBytes == f.SegmentLocs[i].KvsBytes && rv.SegmentLocs[i].BufOffset == f.SegmentLocs[i].BufOffset &&
+//@         rv.SegmentLocs[i].BufBytes == f.SegmentLocs[i].BufBytes && rv.SegmentLocs[i].mref == f.SegmentLocs[i].mref)
+
+//@ func (slocs SegmentLocs) AddRef()
+//@   trusted reference counts of the mappings (C15); the locations themselves are untouched
+//@ func (f *Footer) DecRef()
+//@   trusted reference counts (C15)
+
+//@ func (s *Store) revertToSnapshot(revertToFooter *Footer, options StorePersistOptions) (rv *Footer, err error)
+//@   props C12 C11
+//@   requires revertToFooter != nil
+//@   ensures @fresh err == nil ==> rv != nil && fresh(rv)
+//@   ensures @same err == nil ==> sameLocs(rv, revertToFooter)
+//@   ensures @children err == nil ==> (forall c string :: has(revertToFooter.ChildFooters, c) ==> has(rv.ChildFooters, c) && sameLocs(rv.ChildFooters[c], revertToFooter.ChildFooters[c]))
+//@   ensures @noOthers err == nil ==> (forall c string :: has(rv.ChildFooters, c) ==> has(revertToFooter.ChildFooters, c))
+//@   ensures @incar err == nil ==> rv.incarNum == revertToFooter.incarNum
+//@   loop 1: modifies footer.ChildFooters
+//@   loop 1: invariant footer != nil && fresh(footer) && sameLocs(footer, revertToFooter)
+//@   loop 1: invariant footer.ChildFooters != nil ==> sinceLoop(footer.ChildFooters)
+//@   loop 1: invariant forall c string :: visited(c) ==> has(footer.ChildFooters, c) && sameLocs(footer.ChildFooters[c], revertToFooter.ChildFooters[c])
+//@   loop 1: invariant forall c string :: has(footer.ChildFooters, c) ==> visited(c)
+
+//@ func (s *Store) persistFooter(file File, footer *Footer, options StorePersistOptions) error
+//@   trusted writes through the handle only (ordering and error propagation: C05/C06); on success records where the footer was written
+//@   requires footer != nil
+//@   modifies footer.fileName, footer.filePos
+
+// ---- walking back (C12) ----------------------------------------------------------------------------
+
+// The footer ScanFooter finds when scanning file fref backwards from pos
+// (the recovery scan itself is the subject of C05).
+//@ pure abstract func scanAt(fref *FileRef, pos int64) *Footer
+//@ func ScanFooter(options *StoreOptions, fref *FileRef, fileName string, pos int64) (*Footer, error)
+//@   trusted the recovery scan (C05); here only: its result is a function of the file and the start position
+//@   ensures r1 == nil ==> r0 == scanAt(fref, pos) && r0 != nil
+//@ func (f *Footer) segmentLocs() (SegmentLocs, *segmentStack)
+//@   trusted adds a reference (C15) and returns the footer's segment locations
+//@   ensures r0 == f.SegmentLocs && r1 == f.ss
+
+//@ func (s *Store) snapshotPrevious(ss Snapshot) (Snapshot, error)
+//@   props C12
+//@   attr obligations ensures
+//@   requires s != nil
+//@   ensures @prev r1 == nil && r0 != nil ==> typeIs(ss, "*Footer") && len(ptrOf(ss, "*Footer").SegmentLocs) > 0 &&
+//@       r0 == ifaceOf(scanAt(ptrOf(ss, "*Footer").SegmentLocs[0].mref.fref, ptrOf(ss, "*Footer").PrevFooterOffset))
